@@ -223,6 +223,7 @@ type runCfg struct {
 	tmp     string
 	par     int
 	keep    bool
+	prop    string
 }
 
 func runObligations(reps []*FuncReport, cfg runCfg) {
@@ -233,6 +234,11 @@ func runObligations(reps []*FuncReport, cfg runCfg) {
 	var jobs []job
 	for _, r := range reps {
 		for _, o := range r.Obls {
+			// obligations tagged for other properties are not part of this check (they are listed
+			// as assumptions in its evidence): do not spend solver time on them
+			if cfg.prop != "" && len(o.Props) > 0 && !hasProp(o.Props, cfg.prop) {
+				continue
+			}
 			jobs = append(jobs, job{r, o})
 		}
 	}
@@ -254,6 +260,12 @@ func runObligations(reps []*FuncReport, cfg runCfg) {
 					full = append(full, implies(f.guard, f.f))
 				}
 				var res SolveResult
+				t0 := time.Now()
+				defer func(name string) {
+					if os.Getenv("GOVC_TIMING") != "" {
+						fmt.Fprintf(os.Stderr, "timing %s %.1fs\n", name, time.Since(t0).Seconds())
+					}
+				}(o.Name)
 				if o.ExpectSat {
 					// vacuity: a model is expected; "unsat" is the only bad answer, so a short limit suffices
 					o.Query = j.rep.s.Query(full, "", nil)
@@ -436,7 +448,7 @@ func cmdCheck(args []string) int {
 	genS := time.Since(start).Seconds() - loadS
 	tmp, _ := os.MkdirTemp("", "govc-q")
 	defer os.RemoveAll(tmp)
-	runObligations(reps, runCfg{timeout: to, seed: seed, tmp: tmp, par: 6})
+	runObligations(reps, runCfg{timeout: to, seed: seed, tmp: tmp, par: 6, prop: *prop})
 	// report
 	total, discharged := 0, 0
 	var failed []*Obligation
